@@ -11,7 +11,7 @@ CONSTANTS
   ByValueMax = 3
   AllowConflicts = FALSE
   Features = {}
-  Window = 2
+  Window = 1024
   Retention = 2
   BurstSizes = {1, 2}
   PskIds = {}
